@@ -149,6 +149,8 @@ def check(run):
     # fill phase / replacement typestate of this class (C07 clauses)
     from . import c06, c07
     c07._storage(c06.FilterRun(run, {"COUNT", "PARALLEL"}, {"COUNT": "FORMULA", "PARALLEL": "FORMULA"}), prog, cls, False)
+    from .copylib import copy_protocol
+    copy_protocol(run, prog, cls)           # a copied / unpickled reservoir keeps its probability, size and contents
     # ---- AGREE: TreeStorage relies on p >= 1 ---------------------------------------------------
     ts = prog.find_class("TreeStorage")
     run.need(ts is not None, "anchor class TreeStorage vanished")
